@@ -29,6 +29,15 @@ var Root = func() string {
 	return "/verif"
 }()
 
+// outRoot is where evidence and replays are written: Root, or Root/scratch/alt when the check runs against another
+// checkout than /repo (VERIF_REPO development aid), so that such runs never overwrite the real evidence.
+func outRoot() string {
+	if os.Getenv("VERIF_REPO") != "" {
+		return filepath.Join(Root, "scratch", "alt")
+	}
+	return Root
+}
+
 // Violation is one refutation of a property by an oracle on a concrete case.
 type Violation struct {
 	Clause   string            `json:"clause"`             // which oracle clause failed
@@ -366,7 +375,7 @@ func (r *Run) finish() {
 	}
 
 	known := loadKnown(r.ID)
-	dir := filepath.Join(Root, "replays", r.ID)
+	dir := filepath.Join(outRoot(), "replays", r.ID)
 	exe, _ := os.Executable()
 	for _, sig := range r.violOrder {
 		rec := r.viol[sig]
@@ -506,10 +515,10 @@ func (r *Run) writeEvidence(nViol, nKnown int) {
 		"violations":  nViol,
 	}
 	b, _ := json.MarshalIndent(ev, "", " ")
-	os.MkdirAll(filepath.Join(Root, "evidence"), 0o755)
-	tmp := filepath.Join(Root, "evidence", r.ID+".json.tmp")
+	os.MkdirAll(filepath.Join(outRoot(), "evidence"), 0o755)
+	tmp := filepath.Join(outRoot(), "evidence", r.ID+".json.tmp")
 	os.WriteFile(tmp, append(b, '\n'), 0o644)
-	os.Rename(tmp, filepath.Join(Root, "evidence", r.ID+".json"))
+	os.Rename(tmp, filepath.Join(outRoot(), "evidence", r.ID+".json"))
 }
 
 // F builds a feature map from alternating key, value arguments.
